@@ -151,6 +151,8 @@ def run_history(case):
             if r["changed"] and op[0] in O.PLURAL and _prefix_applied(before, op, after):
                 r["prefix"] = True
                 s["prefix"] = True
+        if check and out != "ok" and op[0] in c03spec.SURROGATE_PATHS:
+            r["surpath"] = c03spec.surrogate_reject_path(before, op)
         R.append(r)
         S.append(s)
     if originals and S and S[-1] is not None:
@@ -287,6 +289,8 @@ def m_view(r, mobs):
         v["prefix"] = True
     if "forks" in r:
         v["forks"] = r["forks"]
+    if "surpath" in r:
+        v["surpath"] = r["surpath"]
     return v
 
 
@@ -307,6 +311,7 @@ def check_history(arg):
         rep["skipped"] = True
         return rep
     rep["muts"] = [ops[i][0] for i in idx if ops[i][0] not in ("q", "fork")]
+    rep["surpaths"] = [f"{ops[i][0]}:{R[i]['surpath']}:{R[i]['out']}" for i in idx if "surpath" in R[i]]
     rep["queries"] = [ops[i][1] + (":" + ops[i][2] if ops[i][1] == "names" else "") for i in idx if ops[i][0] == "q"]
     for i in idx:
         if ops[i][0] == "fork":
@@ -412,6 +417,8 @@ class Judge:
             cov.setdefault("mutators_hit", {})[o] = cov.setdefault("mutators_hit", {}).get(o, 0) + 1
         for o in rep.get("queries", []):
             cov.setdefault("queries_hit", {})[o] = cov.setdefault("queries_hit", {}).get(o, 0) + 1
+        for o in rep.get("surpaths", []):
+            cov.setdefault("surrogate_rejections_hit", {})[o] = cov.setdefault("surrogate_rejections_hit", {}).get(o, 0) + 1
         for k, v in rep["outcomes"].items():
             cov.setdefault("outcomes_hit", {})[k] = cov.setdefault("outcomes_hit", {}).get(k, 0) + v
         for pl in rep["plural"]:
@@ -501,8 +508,8 @@ def run(ctx):
               if e.get("witness", {}).get("ops") and e["witness"]["ops"][0] != "BASE"]
     evaluate(ctx, corpus, judge)
     evaluate(ctx, list(G.arity_histories()) + list(G.extra_histories()) + list(G.copy_histories())
-             + list(G.empty_flux_histories()) + list(G.degenerate_histories()) + list(G.shadow_histories()),
-             judge)
+             + list(G.empty_flux_histories()) + list(G.degenerate_histories()) + list(G.shadow_histories())
+             + list(G.scan_histories()), judge)
     ctx.exhaustive = True
     thorough = ctx.tier == "thorough"
     cur = []
@@ -516,6 +523,11 @@ def run(ctx):
     p2 = list(G.pairs2())
     for i in range(0, len(p2), 400):
         evaluate(ctx, p2[i:i + 400], judge)
+    hit = {k.rsplit(":", 1)[0] for k in ctx.extra_cov.get("surrogate_rejections_hit", {})}
+    want = {f"{m}:{p_}" for m, ps in c03spec.SURROGATE_PATHS.items() for p_ in ps}
+    ctx.extra_cov["surrogate_rejection_paths_missed"] = sorted(want - hit)
+    if want - hit:
+        ctx.notes.append(f"rejecting paths of the surrogate mutators not reached by the generator: {sorted(want - hit)}")
     # public methods nobody has described (a NEW method in the source: C03_table_surface / the translator have already
     # broken the proof side): look for a failing input by calling them inside histories — the fresh-rebuild oracle
     # needs no model of the method (edits without invalidation, ids out of step, half-applied rejections show)
